@@ -6,4 +6,4 @@ CONSTANTS K = 2
           RootKinds = {"b", "h"}
           Fills = {0, 2}
           Fans = {8}
-INVARIANTS GSane Determinate
+INVARIANTS GSane Determinate UseSane
